@@ -1,7 +1,12 @@
 import Vflow.Model.Mirror
 /-! line protocol: `mirror <ipfix|sflow> <src-hex> <dst dotted quad> <port> <max> <payload-hex|->`
 output: `<hex of the octets handed to Send> <hex of the 28 header octets>` or `panic` / `v6`;
-the datagram is the second one of a worker's life (after the hook's primer) -/
+the datagram is the second one of a worker's life (after the hook's primer).
+
+`mirrorseq <ipfix|sflow> <dst dotted quad | ::1> <port> <max> <mtu> <w|d<k>> <items>`: a stream of datagrams
+through one worker (`w`) or through the dispatcher with `k` workers (`d<k>`) on a path of the given MTU;
+items are `<count>x<src-hex>:<len>:<seed>` joined by `,`, the payload of the r-th repetition of an item is
+octet j = (seed + r + j) mod 256.  Output: `n=<packets that left>` followed by their hex, in input order. -/
 namespace Driver
 open Vflow Vflow.Mirror
 
@@ -21,11 +26,47 @@ def mirrorLine (proto src dst port max payload : String) : String :=
     let pl := if payload = "-" then [] else unhex payload
     -- the hook sends a primer through the same worker first (source ::ffff:10.9.8.7, max-28 octets of 0xaa)
     let primer : Bytes × Bytes := (mapped [10, 9, 8, 7], List.replicate (m - 28).toNat 0xaa)
-    match mirrorSeq sport m d p [primer, (unhex src, pl)] with
+    match mirrorSeq (linkSend 65536) sport m d p [primer, (unhex src, pl)] with
     | .ok [_, pkt] => hex pkt ++ " " ++ hex (pkt.take 28)
     | .ok _ => "bad-op"
     | .panic _ => "panic"
     | .v6 => "v6"
   | _, _, _, _ => "bad-op"
+
+/-- `net.ParseIP` of the target of a `mirrorseq` line -/
+def parseDst (s : String) : Option Bytes :=
+  if s = "::1" then some (List.replicate 15 0 ++ [1]) else parseQuad s
+
+/-- `<count>x<src-hex>:<len>:<seed>` expanded -/
+def seqItem (s : String) : Option (List (Bytes × Bytes)) :=
+  match s.splitOn "x" with
+  | [c, r] =>
+    match c.toNat?, r.splitOn ":" with
+    | some cnt, [src, len, seed] =>
+      match len.toNat?, seed.toNat? with
+      | some l, some sd =>
+        some ((List.range cnt).map (fun k => (unhex src, (List.range l).map (fun j => UInt8.ofNat (sd + k + j)))))
+      | _, _ => none
+    | _, _ => none
+  | _ => none
+
+def seqItems (s : String) : Option (List (Bytes × Bytes)) :=
+  ((s.splitOn ",").mapM seqItem).map List.flatten
+
+def mirrorSeqLine (proto dst port max mtu mode items : String) : String :=
+  let sport? : Option Nat := if proto = "ipfix" then some ipfixSrcPort else if proto = "sflow" then some sflowSrcPort else none
+  let workers? : Option (Option Nat) :=
+    if mode = "w" then some none
+    else if mode.startsWith "d" then (mode.drop 1).toNat?.map some else none
+  match sport?, parseDst dst, port.toNat?, max.toInt?, mtu.toNat?, workers?, seqItems items with
+  | some sport, some d, some p, some m, some mt, some wk, some msgs =>
+    let r := match wk with
+      | none => mirrorSeq (linkSend mt) sport m d p msgs
+      | some k => mirrorAll (linkSend mt) sport m d p k msgs
+    match r with
+    | .ok pkts => pkts.foldl (fun acc b => acc ++ " " ++ hex b) ("n=" ++ toString pkts.length)
+    | .panic _ => "panic"
+    | .v6 => "v6"
+  | _, _, _, _, _, _, _ => "bad-op"
 
 end Driver
